@@ -6,8 +6,9 @@
 ** the harness dies).  Breadth-first search over histories of
 **   sopen(path, mode) / sclose / stell / seof / sflush / swrite(chunk) / sread(n) /
 **   sseek(origin, offset) / sseek(stell, SEEK_SET) / print_to / scan_from /
-**   with (f in file) { inner } / del + re-create (raw, collector-managed, constructor-open) /
-**   environment: another stream appends a byte to the open file.
+**   with (f in file) { inner } / del + re-create (raw, collector-managed, constructor-open,
+**   stack-allocated) / destruct(file) with the object kept / construct(file, path, mode) on the
+**   existing object / environment: another stream appends a byte to the open file.
 **
 ** Three independent views of every history:
 **   1. the real File object (Cello, /repo/src/File.c) on files r0, r1;
@@ -32,7 +33,9 @@
 ** the real program would die in fclose(NULL)); fclose must be called exactly once per
 ** successful fopen: by sclose, del, leaving a with block, or re-opening.
 **
-** Parameters: depth=N  first=<ops> | notfirst=<ops> (partition of the history space by
+** Parameters: mode=bfs|ladder (ladder: print_to of one N-character conversion, N = 0..ladder_n
+**             and larger sizes, read back with sread and scan_from)
+**             depth=N  first=<ops> | notfirst=<ops> (partition of the history space by
 ** the first operation; comma separated alphabet indices)  alpha=full|lite  whitebox=1|0
 **             probe=1|0 (seof/stell compared with the twin after every transition)
 **             concrete=1|0 (state key refined by the real stream's libc bookkeeping when it
@@ -205,7 +208,9 @@ static var* R;
 #define F (R[0])                 /* the File under test */
 #define SK (R[1])                /* String scan target (capacity 100) */
 #define IV (R[2])                /* Int scan target */
-static int F_managed;
+enum { F_RAW, F_MANAGED, F_STACK };
+static int F_kind;
+static var sfmem;                /* room for one stack-allocated File (lives in main's frame) */
 static FILE* T;                  /* the twin stream */
 
 #define BIG 8193
@@ -219,13 +224,20 @@ static const int origins[3] = { SEEK_SET, SEEK_CUR, SEEK_END };
 static const char* originname[3] = { "SEEK_SET", "SEEK_CUR", "SEEK_END" };
 static const int offsets[3] = { 0, 1, -1 };
 #define OFF_CURPOS 3            /* sseek(f, <current position>, SEEK_SET): a seek that moves nowhere */
-#define REC "k 42;"
-#define RECLEN 5
+/* a printed record: N times 'k', then " 42;" (print_to("%s %li;", <N-character String>, 42)) */
+#define RECTAIL " 42;"
+#define RECTAILLEN 4
+#define MAXPAY 20000
+static const size_t paylen[2] = { 1, 257 };      /* BFS payloads: short, and just past a 256-byte formatting buffer */
+static char paystr[2][260];
+static char twin_str[MAXPAY + 16];
+static unsigned char recbuf[MAXPAY + 16];
+static size_t make_record(size_t n) { memset(recbuf, 'k', n); memcpy(recbuf + n, RECTAIL, RECTAILLEN + 1); return n + RECTAILLEN; }
 #define RECFMT "%s %li;"
 
-enum { K_SOPEN, K_SCLOSE, K_STELL, K_SEOF, K_SFLUSH, K_SWRITE, K_SREAD, K_SSEEK, K_PRINT, K_SCAN, K_EMPTY };
+enum { K_SOPEN, K_SCLOSE, K_STELL, K_SEOF, K_SFLUSH, K_SWRITE, K_SREAD, K_SSEEK, K_PRINT, K_SCAN, K_EMPTY, K_CONSTRUCT };
 struct prim { int kind, a, b; };
-enum { T_PLAIN, T_WITH, T_DELNEW, T_ENV };
+enum { T_PLAIN, T_WITH, T_DELNEW, T_ENV, T_DESTRUCT };
 struct op { int type; struct prim p; int variant; char name[64]; char kname[32]; };
 #define MAXOPS 96
 static struct op ops[MAXOPS];
@@ -241,7 +253,7 @@ static int nt_flag;
 static unsigned char firstmask[MAXOPS]; static int have_first;
 
 /* evidence counters */
-static uint64_t n_readback_bytes, n_closed_ops, n_disk_compares, n_scan_ok, n_with_exit, n_cfail, n_fclose_seen, n_fopen_seen, n_env, n_diverged, n_probes;
+static uint64_t n_readback_bytes, n_closed_ops, n_disk_compares, n_scan_ok, n_with_exit, n_cfail, n_fclose_seen, n_fopen_seen, n_env, n_diverged, n_probes, n_destruct, n_ladder;
 
 static struct { int fclose, fopen, silent; } E;   /* expectations for the operation in progress */
 static char site[96];
@@ -371,9 +383,15 @@ static void model_close(void) { M.open = 0; M.eof = 0; M.last = LAST_NONE; M.pos
 
 /* ---- primitives: enabledness, the real call, the comparison ----------------------- */
 
-static int record_at_pos(void) {
+/* number of 'k' of the record that starts at the current position (0: none starts here) */
+static size_t record_at_pos(void) {
   struct mfile* mf = &M.f[M.path];
-  return M.pos >= 0 && (size_t)M.pos + RECLEN <= mf->len && memcmp(mf->b + M.pos, REC, RECLEN) == 0;
+  size_t p = (size_t)M.pos, n = 0;
+  if (M.pos < 0) return 0;
+  while (p + n < mf->len && mf->b[p + n] == 'k' && n <= MAXPAY) n++;
+  if (n == 0 || n > MAXPAY) return 0;
+  if (p + n + RECTAILLEN <= mf->len && memcmp(mf->b + p + n, RECTAIL, RECTAILLEN) == 0) return n;
+  return 0;
 }
 
 static int prim_enabled(const struct prim* p) {
@@ -393,7 +411,7 @@ static int prim_enabled(const struct prim* p) {
   case K_SCAN:
     if (!READABLE(M.mode)) return 0;
     if (M.last == LAST_WRITE || M.eof) return 0;
-    return record_at_pos();                    /* in-contract use: a printed record starts here */
+    return record_at_pos() > 0;                /* in-contract use: a printed record starts here */
   default: return 1;
   }
 }
@@ -409,7 +427,8 @@ static void prim_real(const struct prim* p, var f) {
   case K_SWRITE: g_ret = (int64_t)swrite(f, (void*)chunkp[p->a], chunklen[p->a]); break;
   case K_SREAD:  g_ret = (int64_t)sread(f, rbuf, rdlen[p->a]); break;
   case K_SSEEK:  sseek(f, p->b == OFF_CURPOS ? M.pos : offsets[p->b], origins[p->a]); break;
-  case K_PRINT:  g_ret = print_to(f, 0, RECFMT, $S("k"), $I(42)); break;
+  case K_PRINT:  g_ret = print_to(f, 0, RECFMT, $S(paystr[p->a]), $I(42)); break;
+  case K_CONSTRUCT: g_retp = construct(f, $S(rpath[p->a]), $S((char*)modestr[p->b])); break;
   case K_SCAN:   g_ret = scan_from(f, 0, RECFMT, SK, IV); break;
   case K_EMPTY:  break;
   }
@@ -434,7 +453,7 @@ static int V(const char* symptom, const char* fmt, ...) {
 static int prim_after(const struct prim* p, var e) {
   if (ledger_fault()) return VF_BAD;
 
-  if (!M.open && p->kind != K_SOPEN && p->kind != K_EMPTY) {
+  if (!M.open && p->kind != K_SOPEN && p->kind != K_CONSTRUCT && p->kind != K_EMPTY) {
     /* "any operation on a File that is not open raises IOError rather than touching a stale handle" */
     n_closed_ops++; vf.evaluations++;
     E.silent = 1;
@@ -448,6 +467,7 @@ static int prim_after(const struct prim* p, var e) {
 
   case K_EMPTY: return VF_OK;
 
+  case K_CONSTRUCT:      /* construct(file, path, mode) on an existing object: File_New -> File_Open */
   case K_SOPEN: {
     int pa = p->a, mo = p->b;
     E.fclose += M.open ? 1 : 0; E.fopen += 1;
@@ -574,32 +594,35 @@ static int prim_after(const struct prim* p, var e) {
     return VF_OK; }
 
   case K_PRINT: {
-    int tv = fprintf(T, RECFMT, "k", 42L);
+    size_t reclen = make_record(paylen[p->a]);
+    int tv = fprintf(T, RECFMT, paystr[p->a], 42L);
     if (!WRITABLE(M.mode)) {
       if (tv >= 0) infra("fprintf on a read-only twin returned %d", tv);
       n_cfail++; M.last = LAST_WRITE;
       return VF_OK;
     }
-    if (tv != RECLEN) infra("fprintf twin returned %d", tv);
+    if (tv != (int)reclen) infra("fprintf twin returned %d", tv);
     if (e != NULL) return V("raised", "print_to raised %s, fprintf on the twin succeeds", vf_exc_name(e));
-    if (g_ret != RECLEN) return V("print-return", "print_to(f, 0, \"%s\", \"k\", 42) returned %" PRId64 ", %d characters were to be written", RECFMT, (int64_t)g_ret, RECLEN);
+    if (g_ret != (int64_t)reclen) return V("print-return", "print_to(f, 0, \"%s\", <%zu x 'k'>, 42) returned %" PRId64 ", %zu characters were to be written", RECFMT, paylen[p->a], (int64_t)g_ret, reclen);
     size_t at = M.mode == M_A ? mf->len : (size_t)M.pos;
-    mf_write(mf, at, REC, RECLEN);
-    M.pos = (int64_t)(at + RECLEN);
+    mf_write(mf, at, recbuf, reclen);
+    M.pos = (int64_t)(at + reclen);
     M.last = LAST_WRITE;
     return VF_OK; }
 
   case K_SCAN: {
-    char ts[128] = ""; long tl = 0;
-    int tv = fscanf(T, RECFMT, ts, &tl);
-    if (tv != 2 || strcmp(ts, "k") != 0 || tl != 42) infra("fscanf twin returned %d '%s' %ld", tv, ts, tl);
-    if (e != NULL) return V("raised", "scan_from raised %s at a position where the text \"" REC "\" written by print_to starts", vf_exc_name(e));
+    size_t nk = record_at_pos(), reclen = make_record(nk);
+    long tl = 0; twin_str[0] = 0;
+    int tv = fscanf(T, RECFMT, twin_str, &tl);
+    if (tv != 2 || strlen(twin_str) != nk || memcmp(twin_str, recbuf, nk) != 0 || tl != 42) infra("fscanf twin returned %d '%.20s' %ld", tv, twin_str, tl);
+    if (e != NULL) return V("raised", "scan_from raised %s at a position where a record (%zu x 'k', \" 42;\") written by print_to starts", vf_exc_name(e), nk);
     vf.evaluations++;
-    if (strcmp(c_str(SK), "k") != 0 || c_int(IV) != 42) return V("scan-values-differ", "scan_from read back (\"%.20s\", %" PRId64 "), print_to had written (\"k\", 42)", c_str(SK), (int64_t)c_int(IV));
-    if (g_ret != RECLEN) return V("scan-return", "scan_from returned %" PRId64 ", %d characters were consumed", (int64_t)g_ret, RECLEN);
-    M.pos += RECLEN;
+    if (strlen(c_str(SK)) != nk || memcmp(c_str(SK), recbuf, nk) != 0 || c_int(IV) != 42)
+      return V("scan-values-differ", "scan_from read back (\"%.20s\" of length %zu, %" PRId64 "), print_to had written (%zu x 'k', 42)", c_str(SK), strlen(c_str(SK)), (int64_t)c_int(IV), nk);
+    if (g_ret != (int64_t)reclen) return V("scan-return", "scan_from returned %" PRId64 ", %zu characters were consumed", (int64_t)g_ret, reclen);
+    M.pos += (int64_t)reclen;
     M.last = LAST_READ;
-    n_scan_ok++; n_readback_bytes += RECLEN; nt_flag = 1;
+    n_scan_ok++; n_readback_bytes += reclen; nt_flag = 1;
     return VF_OK; }
   }
   return VF_OK;
@@ -647,21 +670,33 @@ static int apply_with(struct op* o) {
   return VF_OK;
 }
 
-static void make_file(void) { F = new_raw(File); F_managed = 0; }
+static void make_file(void) { F = new_raw(File); F_kind = F_RAW; }
 
-static int delete_file(void) {
-  /* del closes an open stream exactly once and never touches a closed one */
+/* the destructor runs: del / del_raw (object released) or destruct (object kept: keep = 1; a
+   stack File is always only destructed).  It closes an open stream exactly once and never
+   touches a closed one; an object that outlives it is a File that is not open. */
+static int finalize_file(int keep) {
   ledger_reset();
   E.fclose = M.open ? 1 : 0;
   E.silent = !M.open;
   var e;
-  if (F_managed) e = LIB(del(F)); else e = LIB(del_raw(F));
-  F = NULL;
+  if (keep || F_kind == F_STACK) e = LIB(destruct(F));
+  else if (F_kind == F_MANAGED) e = LIB(del(F));
+  else e = LIB(del_raw(F));
+  if (!keep) F = NULL;
   twin_close(); model_close();
   if (ledger_fault()) return 1;
-  if (e != NULL) return V("raised", "del of the File raised %s", vf_exc_name(e)), 1;
+  if (e != NULL) return V("raised", "%s of the File raised %s", keep ? "destruct" : "del", vf_exc_name(e)), 1;
   if (ledger_post()) return 1;
   return verify_disk();
+}
+
+static int delete_file(void) { return finalize_file(0); }
+
+static int apply_destruct(struct op* o) {
+  set_site(o->kname);
+  n_destruct++;
+  return finalize_file(1) ? VF_BAD : VF_OK;
 }
 
 static int apply_delnew(struct op* o) {
@@ -670,11 +705,12 @@ static int apply_delnew(struct op* o) {
   ledger_reset();
   switch (o->variant) {
   case 0: make_file(); break;
-  case 1: F = new(File); F_managed = 1; break;
+  case 1: F = new(File); F_kind = F_MANAGED; break;
+  case 3: memset(sfmem, 0, sizeof(struct Header) + sizeof(struct File)); F = header_init(sfmem, File, AllocStack); F_kind = F_STACK; break;   /* what $(File, NULL) builds */
   default: {
     struct prim pr = { K_SOPEN, o->p.a, o->p.b };
     var e = LIB(F = new_raw(File, $S(rpath[pr.a]), $S((char*)modestr[pr.b])));
-    F_managed = 0;
+    F_kind = F_RAW;
     int failed = e != NULL;
     if (failed) F = NULL;
     g_retp = F;
@@ -738,6 +774,7 @@ static int apply(int opi) {
   case T_PLAIN:  r = apply_plain(o); break;
   case T_WITH:   r = apply_with(o); break;
   case T_ENV:    r = apply_env(o); break;
+  case T_DESTRUCT: r = apply_destruct(o); break;
   default:       r = apply_delnew(o); break;
   }
   if (r != VF_SKIP) { nsteps++; compute_divergence(); }
@@ -775,6 +812,17 @@ static int check(void) {
     if (pr_eof != te) { V("then-seof-differs", "seof right after the operation = %d, feof on the twin stream = %d", (int)pr_eof, te); bad_exec = 1; return 1; }
     if (g_ret != tt) { V("then-stell-differs", "stell right after the operation = %" PRId64 ", ftell on the twin stream = %ld", (int64_t)g_ret, tt); bad_exec = 1; return 1; }
   }
+  if (!T && probe && F) {
+    /* same reasoning for a File that is not open: the reference merges all "closed" states, so the
+       refusal is demanded after every transition that leaves the File closed (a stale handle kept
+       by a destructor or a close would otherwise only be met from the shortest history) */
+    ledger_reset(); E.silent = 1;
+    var e = LIB(g_ret = stell(F));
+    n_probes++; vf.evaluations++;
+    if (ledger_fault()) { bad_exec = 1; return 1; }
+    if (e != IOError) { V(e ? "then-stell-wrong-exception" : "then-stell-no-IOError", "stell right after the operation, on the File that is now not open, %s%s", e ? "raised " : "returned normally", e ? vf_exc_name(e) : ""); bad_exec = 1; return 1; }
+    if (L.other || L.fopen_ok || L.fopen_fail || L.fclose_ok) { V("then-stell-stdio-call-while-closed", "stell on the File that is now not open made a stdio call"); bad_exec = 1; return 1; }
+  }
   return 0;
 }
 
@@ -797,7 +845,7 @@ static void cleanup(void) {
     if (!bad_exec) { snprintf(site, sizeof site, "file/final-del/%s", M.open ? "open" : "closed"); vf.phase = site; delete_file(); }
     else {
       in_lib = 1;               /* best effort: release the object, ignore what it does (stale handles stay refused) */
-      var e = VF_CATCH(if (F_managed) del(F); else del_raw(F));
+      var e = VF_CATCH(if (F_kind == F_STACK) destruct(F); else if (F_kind == F_MANAGED) del(F); else del_raw(F));
       (void)e; in_lib = 0; F = NULL;
     }
   }
@@ -849,7 +897,11 @@ static void prim_name(const struct prim* p, char* name, size_t ncap, char* kname
     if (p->b == OFF_CURPOS) { snprintf(name, ncap, "sseek(stell,%s)", originname[p->a]); snprintf(kname, kcap, "sseek-%s-curpos", originname[p->a]); }
     else { snprintf(name, ncap, "sseek(%d,%s)", offsets[p->b], originname[p->a]); snprintf(kname, kcap, "sseek-%s", originname[p->a]); }
     break;
-  case K_PRINT:  snprintf(name, ncap, "print_to(\"%s\",\"k\",42)", RECFMT); snprintf(kname, kcap, "print_to"); break;
+  case K_PRINT:
+    if (paylen[p->a] == 1) { snprintf(name, ncap, "print_to(\"%s\",\"k\",42)", RECFMT); snprintf(kname, kcap, "print_to"); }
+    else { snprintf(name, ncap, "print_to(\"%s\",%zu x 'k',42)", RECFMT, paylen[p->a]); snprintf(kname, kcap, "print_to-%zu", paylen[p->a]); }
+    break;
+  case K_CONSTRUCT: snprintf(name, ncap, "construct(file,path%d,\"%s\")", p->a, modestr[p->b]); snprintf(kname, kcap, "construct-%s", modestr[p->b]); break;
   case K_SCAN:   snprintf(name, ncap, "scan_from(\"%s\")", RECFMT); snprintf(kname, kcap, "scan_from"); break;
   case K_EMPTY:  name[0] = 0; kname[0] = 0; break;
   }
@@ -875,6 +927,7 @@ static void add_delnew(int variant, int a, int b) {
   o->type = T_DELNEW; o->variant = variant; o->p = (struct prim){ K_SOPEN, a, b };
   if (variant == 0) { snprintf(o->name, sizeof o->name, "del;file=new_raw(File)"); snprintf(o->kname, sizeof o->kname, "del+new"); }
   else if (variant == 1) { snprintf(o->name, sizeof o->name, "del;file=new(File)"); snprintf(o->kname, sizeof o->kname, "del+new"); }
+  else if (variant == 3) { snprintf(o->name, sizeof o->name, "del;file=$(File,NULL) on the stack"); snprintf(o->kname, sizeof o->kname, "del+stack"); }
   else { snprintf(o->name, sizeof o->name, "del;file=new_raw(File,path%d,\"%s\")", a, modestr[b]); snprintf(o->kname, sizeof o->kname, "del+new-%s", modestr[b]); }
 }
 
@@ -908,6 +961,11 @@ static void build_alphabet(int lite) {
   add_plain(K_SSEEK, 0, OFF_CURPOS);           /* sseek(f, stell(f), SEEK_SET) */
   { struct op* o = &ops[nops++]; memset(o, 0, sizeof *o); o->type = T_ENV;
     snprintf(o->name, sizeof o->name, "other-stream-appends(\"z\")"); snprintf(o->kname, sizeof o->kname, "env-append"); }
+  { struct op* o = &ops[nops++]; memset(o, 0, sizeof *o); o->type = T_DESTRUCT;       /* the object outlives its destructor */
+    snprintf(o->name, sizeof o->name, "destruct(file)"); snprintf(o->kname, sizeof o->kname, "destruct"); }
+  add_plain(K_CONSTRUCT, 0, M_RP);             /* construct(file, path0, "r+b") on the existing object */
+  add_delnew(3, 0, 0);                         /* continue on a stack File: released with destruct only */
+  add_plain(K_PRINT, 1, 0);                    /* print_to of a 257-character conversion */
 }
 
 static void parse_first(const char* s, int value) {
@@ -918,6 +976,131 @@ static void parse_first(const char* s, int value) {
     if (*s == '-') { s++; b = (int)strtol(s, (char**)&s, 10); }
     for (int i = a; i <= b && i < MAXOPS; i++) firstmask[i] = (unsigned char)value;
   }
+}
+
+/* ---- ladder: print_to of one long conversion, read back with sread and scan_from ----- */
+
+/*
+** For N in 0..300 and some larger sizes: print_to(f, 0, "%s %li;", <N x 'k'>, 42) on a File, the
+** same fprintf on the twin; the bytes are read back with sread (all N) and with scan_from (N >= 1)
+**   v0: "w+b", seek back        v1: "w+b", sclose, sopen "rb"
+**   v2: "ab" on a file that already holds "x\n", two records in a row, sclose, sopen "rb", seek 2
+** and must equal the text printed, the twin's view, and the twin file on disk.
+*/
+static unsigned char lad_r[MAXPAY + 64], lad_t[MAXPAY + 64];
+
+static const char* nclass(size_t n) {
+  return n < 255 ? "n<255" : n == 255 ? "n=255" : n == 256 ? "n=256" : n == 257 ? "n=257" : n < 4096 ? "n<4096" : "n>=4096";
+}
+
+static int ladder_case(size_t N, int variant) {
+  static char pay[MAXPAY + 1];
+  memset(pay, 'k', N); pay[N] = 0;
+  size_t reclen = make_record(N);
+  int reps = variant == 2 ? 2 : 1;
+  long start = variant == 2 ? 2 : 0;
+  const char* m0 = variant == 2 ? "ab" : "w+b";
+  FILE* t = NULL;
+  int bad = 0;
+  var e;
+  snprintf(site, sizeof site, "file/ladder-print/%s/v%d", nclass(N), variant); vf.phase = site;
+  unlink(rpath[0]); unlink(tpath[0]);
+  if (variant == 2) {
+    const char* ps[2] = { rpath[0], tpath[0] };
+    for (int i = 0; i < 2; i++) { FILE* w = __real_fopen(ps[i], "wb"); __real_fwrite("x\n", 2, 1, w); __real_fclose(w); }
+  }
+  ledger_reset(); nlive = 0;
+  model_close(); M.open = 1;                     /* only for the texts of the reports */
+  F = new_raw(File); F_kind = F_RAW;
+#define LSTEP(what, stmt) do { e = LIB(stmt); if (ledger_fault()) { bad = 1; goto out; } \
+    if (e != NULL) { V("raised", "%s raised %s (N=%zu)", what, vf_exc_name(e), N); bad = 1; goto out; } } while (0)
+  LSTEP("sopen", sopen(F, $S(rpath[0]), $S((char*)m0)));
+  t = fopen(tpath[0], m0);
+  for (int r = 0; r < reps; r++) {
+    g_ret = -777;
+    LSTEP("print_to", g_ret = print_to(F, 0, RECFMT, $S(pay), $I(42)));
+    int tv = fprintf(t, RECFMT, pay, 42L);
+    if (tv != (int)reclen) infra("ladder: fprintf twin returned %d for N=%zu", tv, N);
+    vf.evaluations++;
+    if (g_ret != (int64_t)reclen) { V("print-return", "print_to of a %zu-character String and an Int returned %" PRId64 ", %zu characters were to be written", N, (int64_t)g_ret, reclen); bad = 1; goto out; }
+  }
+  if (variant == 0) { LSTEP("sseek", sseek(F, 0, SEEK_SET)); fseek(t, 0, SEEK_SET); }
+  else {
+    LSTEP("sclose", sclose(F)); fclose(t);
+    LSTEP("sopen rb", sopen(F, $S(rpath[0]), $S("rb"))); t = fopen(tpath[0], "rb");
+    LSTEP("sseek", sseek(F, start, SEEK_SET)); fseek(t, start, SEEK_SET);
+  }
+  for (int r = 0; r < reps; r++) {               /* raw bytes */
+    memset(lad_r, 0xAA, reclen + GUARD); memset(lad_t, 0xAA, reclen + GUARD);
+    LSTEP("sread", g_ret = (int64_t)sread(F, lad_r, reclen));
+    size_t tr = fread(lad_t, reclen, 1, t);
+    if (tr != 1 || memcmp(lad_t, recbuf, reclen) != 0) infra("ladder: twin read-back differs for N=%zu", N);
+    vf.evaluations++;
+    if (memcmp(lad_r, recbuf, reclen) != 0) {
+      size_t i = 0; while (lad_r[i] == recbuf[i]) i++;
+      V("bytes-differ", "print_to of a %zu-character String: byte %zu of the %zu written reads back as 0x%02x, expected 0x%02x ('%c')", N, i, reclen, lad_r[i], recbuf[i], recbuf[i]);
+      bad = 1; goto out;
+    }
+    n_readback_bytes += reclen;
+  }
+  LSTEP("sseek", sseek(F, start, SEEK_SET)); fseek(t, start, SEEK_SET);
+  if (N >= 1) for (int r = 0; r < reps; r++) {   /* formatted */
+    c_str(SK)[0] = 0; assign(IV, $I(0)); g_ret = -777;
+    LSTEP("scan_from", g_ret = scan_from(F, 0, RECFMT, SK, IV));
+    long tl = 0; twin_str[0] = 0;
+    int tv = fscanf(t, RECFMT, twin_str, &tl);
+    if (tv != 2 || strlen(twin_str) != N || tl != 42) infra("ladder: fscanf twin %d for N=%zu", tv, N);
+    vf.evaluations++;
+    if (strlen(c_str(SK)) != N || memcmp(c_str(SK), recbuf, N) != 0 || c_int(IV) != 42) {
+      V("scan-values-differ", "scan_from read back a String of length %zu and %" PRId64 ", print_to had written %zu x 'k' and 42", strlen(c_str(SK)), (int64_t)c_int(IV), N);
+      bad = 1; goto out;
+    }
+    if (g_ret != (int64_t)reclen) { V("scan-return", "scan_from returned %" PRId64 ", %zu characters were consumed", (int64_t)g_ret, reclen); bad = 1; goto out; }
+    n_scan_ok++; n_readback_bytes += reclen;
+  } else { LSTEP("sseek", sseek(F, 0, SEEK_END)); fseek(t, 0, SEEK_END); }
+  g_ret = -777;
+  LSTEP("stell", g_ret = stell(F));
+  { long tt = ftell(t); vf.evaluations++;
+    if (g_ret != tt) { V("position-differs", "stell = %" PRId64 " after reading the records back, ftell on the twin = %ld", (int64_t)g_ret, tt); bad = 1; goto out; } }
+  LSTEP("sclose", sclose(F)); fclose(t); t = NULL;
+  { size_t rn, tn; int rex, tex;
+    unsigned char* tb = slurp(tpath[0], &tn, &tex); unsigned char* rb = slurp(rpath[0], &rn, &rex);
+    n_disk_compares++; vf.evaluations++;
+    if (!tex || tn != (size_t)start + reps * reclen) infra("ladder: twin file has %zu bytes", tn);
+    if (!rex || rn != tn || memcmp(rb, tb, tn) != 0) { V("disk-bytes-differ", "after sclose the file holds %zu bytes, the twin file %zu, or the contents differ", rn, tn); bad = 1; }
+    free(tb); free(rb); }
+out:
+#undef LSTEP
+  if (t) fclose(t);
+  if (F) { in_lib = 1; e = VF_CATCH(del_raw(F)); in_lib = 0; F = NULL;
+    if (!bad && (L.null_arg || L.stale)) { ledger_fault(); bad = 1; } }
+  if (!bad && (nlive != 0 || L.fclose_ok != L.fopen_ok)) { V("fclose-count", "%d fopen, %d fclose, %d stream(s) left open", L.fopen_ok, L.fclose_ok, nlive); bad = 1; }
+  while (nlive > 0) __real_fclose(live[--nlive]);
+  model_close();
+  return bad;
+}
+
+static void ladder(void) {
+  static const size_t big[] = { 511, 512, 513, 1023, 1024, 1025, 4095, 4096, 4097, 5000, 8191, 8192, 8193, 20000 };
+  size_t maxsmall = (size_t)vf_param_i("ladder_n", 300);
+  size_t rN = 0; int rv = -1;
+  int only = vf.replay && sscanf(vf.replay, "ladder N=%zu variant=%d", &rN, &rv) == 2;
+  for (size_t i = 0; i <= maxsmall + sizeof big / sizeof big[0]; i++) {
+    size_t N = i <= maxsmall ? i : big[i - maxsmall - 1];
+    for (int v = 0; v < 3; v++) {
+      if (only && (N != rN || v != rv)) continue;
+      vf_watchdog(60);
+      vf_set_cur("ladder N=%zu variant=%d | print_to(\"%s\", %zu x 'k', 42) %s, read back with sread and scan_from", N, v, RECFMT, N,
+                 v == 0 ? "on \"w+b\", seek back" : v == 1 ? "on \"w+b\", sclose, sopen \"rb\"" : "twice on \"ab\" after \"x\\n\", sclose, sopen \"rb\"");
+      int bad = ladder_case(N, v);
+      vf.executions++; vf.transitions++; n_ladder++;
+      if (!bad) { vf.states++; vf.nontrivial++; }
+      if (N > vf.max_depth) vf.max_depth = N;
+      if (vf_want_sample()) vf_sample("%s", vf_cur);
+    }
+  }
+  vf_watchdog(0);
+  vf_cur_valid = 0;
 }
 
 int main(int argc, char** argv) {
@@ -939,8 +1122,21 @@ int main(int argc, char** argv) {
   probe = (int)vf_param_i("probe", 1);         /* 0: no seof/stell comparison after every transition */
   whitebox = (int)vf_param_i("whitebox", 1);   /* 0: no look at the public struct File field, API oracles only */
   make_scratch();
-  SK = new_raw(String, $S("")); resize(SK, 100);
+  SK = new_raw(String, $S("")); resize(SK, MAXPAY + 8);
   IV = new_raw(Int, $I(0));
+  var stackfile[8] = { NULL };                  /* header + struct File of the stack-allocated File */
+  sfmem = stackfile;
+  for (int i = 0; i < 2; i++) { memset(paystr[i], 'k', paylen[i]); paystr[i][paylen[i]] = 0; }
+
+  if (vf_param_is("mode", "ladder", "bfs")) {
+    ladder();
+    vf_extra("ladder_cases", "%" PRIu64, n_ladder);
+    vf_extra("readback_bytes_compared", "%" PRIu64, n_readback_bytes);
+    vf_extra("scan_from_roundtrips", "%" PRIu64, n_scan_ok);
+    vf_extra("on_disk_comparisons", "%" PRIu64, n_disk_compares);
+    rm_scratch();
+    vf_finish();
+  }
 
   static char dname[96];
   snprintf(dname, sizeof dname, "file[%s,%d ops%s%s]", vf_param("alpha", "full"), nops, fs ? ",first=" : nfs ? ",notfirst=" : "", fs ? fs : nfs ? nfs : "");
@@ -958,6 +1154,7 @@ int main(int argc, char** argv) {
   vf_extra("with_blocks_left", "%" PRIu64, n_with_exit);
   vf_extra("c_library_defined_failures_mirrored", "%" PRIu64, n_cfail);
   vf_extra("other_stream_appends", "%" PRIu64, n_env);
+  vf_extra("destruct_with_object_kept", "%" PRIu64, n_destruct);
   vf_extra("state_probes_seof_stell", "%" PRIu64, n_probes);
   vf_extra("real_stream_differs_from_twin_stream", "%" PRIu64, n_diverged);
   vf_extra("fopen_calls_seen", "%" PRIu64, n_fopen_seen);
